@@ -41,16 +41,30 @@ theorem np_udpServerUnpack (C : Ciphers) (now : Int) (hdr : Nat) (replayed : Boo
   go_np
   all_goals (refine noPanic_bind (np_parseUDPClientMessageHeader _ _) ?_; rintro ⟨a, n, l⟩ _; simp)
 
-theorem np_udpClientUnpack (C : Ciphers) (hC : C.LenPreserving) (now : Int) (csid : Nat) (sessOk replayed : Bool) (b : Bytes) (ps pl : Nat)
-    (hb : ps + pl ≤ b.length) : NoPanic (udpClientUnpack C now csid sessOk replayed b ps pl) := by
+theorem np_udpClientUnpack (C : Ciphers) (hC : C.LenPreserving) (now : Int) (csid : Nat) (sess : CliSess) (tooSoon replayed : Bool)
+    (b : Bytes) (ps pl : Nat) (hb : ps + pl ≤ b.length) : NoPanic (udpClientUnpack true C now csid sess tooSoon replayed b ps pl) := by
   unfold udpClientUnpack
   go_consts
   split
   · simp
   · rename_i h
     have h1 : (C.dec16 (((b.take (ps + 16)).drop ps).take 16)).length = 16 := by rw [hC]; simp; omega
-    go_np
-    all_goals (refine noPanic_bind (np_parseUDPServerMessageHeader _ _ _) ?_; rintro ⟨a, n, l⟩ _; simp)
+    go_ok
+    refine noPanic_bind ?_ ?_
+    · repeat' (first | go_ok | split)
+    · rintro ⟨hasAEAD, hasFilter⟩ hslot
+      have hA : hasAEAD = true := by
+        repeat' (split at hslot)
+        all_goals first
+          | (simp at hslot; done)
+          | (simp only [Bool.not_true, Bool.false_or, Outcome.ok.injEq, Prod.mk.injEq] at *; simp_all; done)
+          | (go_ok_at hslot; simp_all; done)
+      subst hA
+      dsimp only
+      repeat' (first | go_ok | split)
+      all_goals first
+        | (exfalso; simp_all; done)
+        | (refine noPanic_bind (np_parseUDPServerMessageHeader _ _ _) ?_; rintro ⟨a, n, l⟩ _; simp)
 
 /-! #### direct/packet.go -/
 
